@@ -278,7 +278,29 @@ def harness_overlay(extra=None):
     return {"Replace": rep}
 
 
-def write_replay(prop, pkg, entry, v, tape, expect, hang_s=8):
+def apply_redirects(redirects, tmp):
+    """Source rewrites used only for native replay: a method body is replaced by a call to a harness function
+    (mirrors the engine's `call:` cuts)."""
+    import re
+    out = {}
+    for r in redirects or []:
+        src = os.path.join(REPO, r["file"])
+        with open(src) as f:
+            text = f.read()
+        head = "func %s %s(" % (r["recv"], r["name"])
+        if head not in text:
+            continue
+        text = text.replace(head, "func %s %s_verifOrig(" % (r["recv"], r["name"]))
+        text += "\n// replay redirect (mirrors the engine cut)\nfunc %s %s(%s) %s { return %s }\n" % (
+            r["recv"], r["name"], r["params"], r["result"], r["target"])
+        dst = os.path.join(tmp, os.path.basename(r["file"]))
+        with open(dst, "w") as f:
+            f.write(text)
+        out[src] = dst
+    return out
+
+
+def write_replay(prop, pkg, entry, v, tape, expect, hang_s=8, redirects=None):
     """Writes the replay artefacts under /verif/out/<prop>/ and returns the path of the spec file."""
     odir = os.path.join(VERIF, "out", prop)
     os.makedirs(odir, exist_ok=True)
@@ -290,7 +312,7 @@ def write_replay(prop, pkg, entry, v, tape, expect, hang_s=8):
         f.write(TEST_TMPL % {"pkg": pkg, "entry": entry, "hang_s": hang_s})
     with open(tape_path, "w") as f:
         json.dump(tape, f, indent=1)
-    spec = {"property": prop, "pkg": pkg, "entry": entry, "test": test_path, "tape": tape_path, "expect": expect,
+    spec = {"property": prop, "pkg": pkg, "entry": entry, "test": test_path, "tape": tape_path, "expect": expect, "redirects": redirects or [],
             "violation": {k: v.get(k) for k in ("kind", "id", "msg", "pos", "func", "trace", "stack")}}
     with open(spec_path, "w") as f:
         json.dump(spec, f, indent=1)
@@ -303,7 +325,9 @@ def run_replay(spec_path, timeout=180):
         spec = json.load(f)
     tmp = scratch_dir()
     try:
-        ov = harness_overlay({os.path.join(REPO, spec["pkg"], "zz_verif_replay_test.go"): spec["test"]})
+        extra = {os.path.join(REPO, spec["pkg"], "zz_verif_replay_test.go"): spec["test"]}
+        extra.update(apply_redirects(spec.get("redirects"), tmp))
+        ov = harness_overlay(extra)
         ovp = os.path.join(tmp, "overlay.json")
         with open(ovp, "w") as f:
             json.dump(ov, f)
@@ -408,14 +432,14 @@ class Check:
                 return k
         return None
 
-    def handle(self, pkg, entry, v, make_tape=None, hang_s=8, replay=True, expect=None):
+    def handle(self, pkg, entry, v, make_tape=None, hang_s=8, replay=True, expect=None, redirects=None):
         """Processes one engine violation: known finding, or replay and report."""
         if v.get("unknown"):
             self.inconclusive.append("%s: obligation %s/%s at %s undecided (solver unknown)" % (entry, v["kind"], v["id"], v["pos"]))
             return
         k = self.classify(entry, v)
         tape = make_tape(v) if make_tape else tape_from(v)
-        spec = write_replay(self.prop, pkg, entry, v, tape, expect or expect_for(v), hang_s=hang_s)
+        spec = write_replay(self.prop, pkg, entry, v, tape, expect or expect_for(v), hang_s=hang_s, redirects=redirects)
         if k is not None:
             if not any(x["what"] == k["what"] for x in self.known_hit):
                 # replay once per known finding to keep the file honest
